@@ -192,7 +192,9 @@ class Reach(Part):
     Python's scopes with the template variables as the global scope."""
     name = "reach"
     examples = {"quick": 600, "thorough": 12000}
-    floors = {"fresh": 0.3, "comp": 0.3}
+    # (the space of "fresh" cases is finite - 675 combinations: in the
+    # thorough tier its share of the distinct cases falls)
+    floors = {"fresh": 0.05, "comp": 0.3}
 
     def strategy(self, tier):
         return reach_cases()
